@@ -153,12 +153,19 @@ static void rx_mark(rx_t *r, uint32_t seq, int src, int tagidx, const char *what
     r->next = seq + 1;
 }
 
+static int echo_permille, totals_frozen; static uint64_t echoes;
+static void send_one(int dst, int ti, uint32_t len);
+static int other_rank(void);
+static uint32_t pick_len_small(void) { return vf_randn(&rng, 17); }
 static int am_cb(parsec_comm_engine_t *ce, parsec_ce_tag_t tag, void *msg, size_t size, int src, void *cb_data) {
     (void)ce; int ti = (int)(intptr_t)cb_data;
     in_cb++; EVENT(); am_recv++; am_bytes += size;
     if (ti < 0 || ti >= ntags || tag != utag[ti]) { vf_violation("am:wrong-tag", "callback of tagidx %d called with tag %lu", ti, (unsigned long)tag); in_cb--; return 1; }
     if (src < 0 || src >= world || src == me) { vf_violation("am:wrong-source", "rank %d: message on tag %lu claims source %d", me, (unsigned long)tag, src); in_cb--; return 1; }
     rx_t *r = &rx[src][ti]; r->nrecv++; r->bytes += size;
+    /* a callback may use the engine while it still owns the message (remote_dep_mpi_save_put_cb starts a put, i.e. a
+     * send_am, from inside its callback): send first, look at the bytes afterwards */
+    if (echo_permille && !totals_frozen && in_cb == 1 && vf_chance(&rng, echo_permille)) { echoes++; send_one(other_rank(), (int)vf_randn(&rng, ntags), pick_len_small()); }
     if (size > maxlen[ti]) vf_violation("am:size", "rank %d: %zu bytes delivered on tag %lu registered for %u", me, size, (unsigned long)tag, maxlen[ti]);
     if (size < 4) {
         uint8_t e[4]; stream_fill(e, 0, size, tiny_key(src, me, ti, (int)size));
@@ -176,15 +183,16 @@ static int am_cb(parsec_comm_engine_t *ce, parsec_ce_tag_t tag, void *msg, size_
     in_cb--; return 1;
 }
 
-static uint8_t *sendbuf; static size_t sendbuf_sz;
 static void send_one(int dst, int ti, uint32_t len) {
+    /* may be entered from a callback while an outer send_one is being prepared: private buffer per call */
     tx_t *t = &tx[dst][ti]; uint32_t seq = t->nsent++;
-    if (len > sendbuf_sz) { sendbuf_sz = len + 64; sendbuf = realloc(sendbuf, sendbuf_sz); }
+    uint8_t *sendbuf = malloc(len + 64);
     if (len < 4) { stream_fill(sendbuf, 0, len, tiny_key(me, dst, ti, (int)len)); t->ntiny[len]++; }
     else { memcpy(sendbuf, &seq, 4); stream_fill(sendbuf + 4, 4, len - 4, am_key(me, dst, ti, seq)); }
     parsec_ce.send_am(&parsec_ce, utag[ti], dst, sendbuf, len);
     /* the engine's send is blocking: the buffer may be reused at once; scribble to prove it */
     if (len) memset(sendbuf, 0xEE, len);
+    free(sendbuf);
     am_sent++; EVENT();
 }
 static uint32_t pick_len(int ti) {
@@ -421,6 +429,7 @@ int main(int argc, char **argv) {
     const char *scenario = vf_arg(argc, argv, "--scenario", "");
     int late_tag = vf_has_flag(argc, argv, "--late-tag");
     put_immediate_permille = (int)vf_arg_ll(argc, argv, "--put-immediate", 500);
+    echo_permille = (int)vf_arg_ll(argc, argv, "--echo", 60);
     if (world < 2 || world > MAXR) { if (!me) fprintf(stderr, "need 2..%d ranks\n", MAXR); MPI_Finalize(); return 2; }
     vf_rng_seed(&rng, seed, 1000 + me);
     if (os_max < 16) os_max = 16;
@@ -546,11 +555,13 @@ int main(int argc, char **argv) {
         MPI_Iallreduce(v, g, 4, MPI_INT64_T, MPI_SUM, MPI_COMM_WORLD, &rq);
         while (!fl) { MPI_Test(&rq, &fl, MPI_STATUS_IGNORE); if (!fl) progress_n(1); }
         if (!totals_known && g[1] == world) {
+            totals_frozen = 1;
             for (int d = 0; d < world; d++) {
                 uint32_t *t = tot_mine + (size_t)d * TV;
                 for (int k = 0; k <= ntags; k++) { t[k * 5] = tx[d][k].nsent; for (int z = 0; z < 4; z++) t[k * 5 + 1 + z] = tx[d][k].ntiny[z]; }
                 t[(MAXT + 1) * 5] = (uint32_t)get_issued_to[d]; t[(MAXT + 1) * 5 + 1] = (uint32_t)putreq_sent[d];
             }
+            totals_frozen = 1;          /* every send so far is in tot_mine; nothing is sent from callbacks any more */
             tot_all = calloc((size_t)world * MAXR * TV, sizeof(uint32_t));
             MPI_Allgather(tot_mine, MAXR * TV, MPI_UINT32_T, tot_all, MAXR * TV, MPI_UINT32_T, MPI_COMM_WORLD);
             totals_known = 1; last_global_events = (uint64_t)g[0]; idle_rounds = 0;
@@ -640,7 +651,9 @@ int main(int argc, char **argv) {
                         dynq_send_obs, dynq_recv_obs, put_in_cb, strided_ops, zero_ops, bursts_over_pool, lost, extra, (uint64_t)vf_nviolations, events, 0, 0, 0}, sum[24], mx[4], lmx[4] = {max_burst, os_outstanding_max, max_os_size, (uint64_t)rounds};
     uint64_t ob = 0; for (int s = 0; s < world; s++) for (int t = 0; t <= ntags; t++) ob += rx[s][t].order_breaks; loc[21] = ob;
     uint64_t tz = 0; for (int s = 0; s < world; s++) for (int t = 0; t < ntags; t++) tz += rx[s][t].ntiny[0]; loc[22] = tz;
+    loc[23] = echoes;
     MPI_Reduce(loc, sum, 24, MPI_UINT64_T, MPI_SUM, 0, MPI_COMM_WORLD);
+    uint64_t echoes_all = sum[23];
     MPI_Reduce(lmx, mx, 4, MPI_UINT64_T, MPI_MAX, 0, MPI_COMM_WORLD);
     /* traffic matrix hash: what each rank actually received */
     uint64_t h = 0; for (int s = 0; s < world; s++) for (int t = 0; t <= ntags; t++) h = vf_mix(h, vf_mix(rx[s][t].nrecv, rx[s][t].bytes));
@@ -657,7 +670,7 @@ int main(int argc, char **argv) {
                (unsigned long long)sum[0], (unsigned long long)sum[1], (unsigned long long)sum[2], (unsigned long long)sum[22], (unsigned long long)mx[0], (unsigned long long)sum[16],
                (unsigned long long)sum[3], (unsigned long long)sum[4], (unsigned long long)sum[5], (unsigned long long)sum[6], (unsigned long long)sum[7], (unsigned long long)sum[8], (unsigned long long)sum[9], (unsigned long long)mx[2],
                (unsigned long long)mx[1], (unsigned long long)sum[10], (unsigned long long)sum[11], (unsigned long long)sum[12], (unsigned long long)sum[13], (unsigned long long)sum[14], (unsigned long long)sum[15],
-               (unsigned long long)sum[17], (unsigned long long)sum[18], (unsigned long long)sum[21], (unsigned long long)sum[19], (unsigned long long)sum[20], (unsigned long long)mx[3], quiescent_unsatisfied, ngreg, (unsigned long long)hh, t_init - t_start, t_rounds - t_init, vf_now() - t_rounds);
+               (unsigned long long)sum[17], (unsigned long long)sum[18], (unsigned long long)sum[21], (unsigned long long)sum[19], (unsigned long long)sum[20], (unsigned long long)mx[3], quiescent_unsatisfied, ngreg, (unsigned long long)hh, (unsigned long long)echoes_all, t_init - t_start, t_rounds - t_init, vf_now() - t_rounds);
     }
     fflush(stdout);
     MPI_Barrier(MPI_COMM_WORLD);
